@@ -159,11 +159,11 @@ package bscript
 //@   ensures[C15.pkh_recovered] (=> (and (not (nil? s)) (= err nil) (= (blen (old (bytes s))) 25) (= (bat (old (bytes s)) 0) 118) (= (bat (old (bytes s)) 1) 169) (= (bat (old (bytes s)) 2) 20)) (= (bytes r0) (bsub (old (bytes s)) 3 23)))
 
 // ---- BIP276 text encoding (C17): layout of the encoder (the decoder is a regular expression: bounded stand-in) ----
-// The property's field order (version, then network) is a `lemma`: an obligation of createBIP276 that callers do not
-// assume. On the unchanged tree it FAILS (the code writes the network first): known finding, see known_findings.json.
+// The property's field order (version, then network) is a `check` clause: an obligation of createBIP276 that nothing
+// else assumes. On the unchanged tree it FAILS (the code writes the network first): known finding, see known_findings.json.
 //@ func bscript.createBIP276
 //@   bytes token
-//@   lemma (= (bstr r0) (bcat (bstr (. script Prefix)) (bcat (bstr ":") (bcat (bhex2 (. script Version)) (bcat (bhex2 (. script Network)) (bstr (bhex (old (bytes (. script Data))))))))))
+//@   check[C17.layout_order] (= (bstr r0) (bcat (bstr (. script Prefix)) (bcat (bstr ":") (bcat (bhex2 (. script Version)) (bcat (bhex2 (. script Network)) (bstr (bhex (old (bytes (. script Data))))))))))
 //@   ensures[C17.layout_fields] (or (= (bstr r0) (bcat (bstr (. script Prefix)) (bcat (bstr ":") (bcat (bhex2 (. script Version)) (bcat (bhex2 (. script Network)) (bstr (bhex (old (bytes (. script Data)))))))))) (= (bstr r0) (bcat (bstr (. script Prefix)) (bcat (bstr ":") (bcat (bhex2 (. script Network)) (bcat (bhex2 (. script Version)) (bstr (bhex (old (bytes (. script Data)))))))))))
 //@   ensures[C17.layout_checksum] (= r1 (bhex (bsub (bsha256d (bstr r0)) 0 4)))
 //@ func bscript.EncodeBIP276
